@@ -6,7 +6,7 @@ import numpy as np
 
 from harness import common, nsutil
 
-GEN = ["resample_probs", "resample_rows", "log_weights", "unnormalized_log_weights", "logsumexp"]
+GEN = ["resample_probs", "resample_rows", "log_weights", "unnormalized_log_weights", "logsumexp", "resample_call"]
 
 
 class SpyRng:
